@@ -36,7 +36,7 @@ def run(sql, params=None, ordered=False):
         cur = con.execute(sql, params or [])
         rows = cur.fetchall() if cur.description is not None else []
         con.commit()
-        tables = {t: con.execute("SELECT * FROM %s ORDER BY id" % t).fetchall() for t in ("t", "u")}
+        tables = {t: con.execute("SELECT * FROM %s ORDER BY id" % t).fetchall() for t in ("t", "u", "p")}
     except sqlite3.Error as e:
         msg = str(e)
         kind = "syntax" if ("syntax error" in msg or "unrecognized token" in msg or "incomplete input" in msg) else "error"
